@@ -114,9 +114,10 @@ package sleep
 //@ at call os.Rename assert werr == nil && $0 == tmpFile && $1 == m.stateFile
 //@ at[C34] call os.Remove assert $0 == tmpFile
 //@ note C34: the state file is never written in place: the new state goes to "<state file>.tmp" and reaches the live name only through one atomic rename of the completely written temporary file, so a crash at any point leaves the state before or after the save
-//@ ghostset persisted = ite(err == nil, ifaceval(m.state), persisted)
 //@ ensures err == nil ==> persisted == ifaceval(m.state)
 //@ ensures err != nil ==> persisted == old(persisted)
+//@ after call os.Rename set persisted = ite($ret == nil, ifaceval(m.state), persisted)
+//@ note the ghost "persisted" changes at the rename and nowhere else: a return that reports success without having renamed a freshly written temporary file fails the first postcondition
 
 //@ func (*Manager).schedulePollLocked
 //@ prop C30
